@@ -388,14 +388,15 @@ type blockSend struct {
 
 // convert a slice of 3 integer strings into a coordinate
 func strArrayToBCoord(coordarray []string) (bcoord dvid.ChunkPoint3d, err error) {
-	var xloc, yloc, zloc int
-	if xloc, err = strconv.Atoi(coordarray[0]); err != nil {
+	// block coordinates are int32: a larger number is an error, not another block
+	var xloc, yloc, zloc int64
+	if xloc, err = strconv.ParseInt(coordarray[0], 10, 32); err != nil {
 		return
 	}
-	if yloc, err = strconv.Atoi(coordarray[1]); err != nil {
+	if yloc, err = strconv.ParseInt(coordarray[1], 10, 32); err != nil {
 		return
 	}
-	if zloc, err = strconv.Atoi(coordarray[2]); err != nil {
+	if zloc, err = strconv.ParseInt(coordarray[2], 10, 32); err != nil {
 		return
 	}
 	return dvid.ChunkPoint3d{int32(xloc), int32(yloc), int32(zloc)}, nil
